@@ -359,8 +359,19 @@ def ser_block(b):
             rows = ['|' + '|'.join(ser_inl(c) for c in b[2]) + '|', '|' + '|'.join(al[a] for a in b[1]) + '|']
             rows += ['|' + '|'.join(ser_inl(c) for c in r) + '|' for r in b[3]]
         else:
+            def row_(r):
+                # a cell followed by k cells that are None spans k+1 columns: its closing pipe is written k+1 times
+                out_ = '|'
+                for i_, c in enumerate(r):
+                    if c is None:
+                        continue
+                    k_ = 0
+                    while i_ + 1 + k_ < len(r) and r[i_ + 1 + k_] is None:
+                        k_ += 1
+                    out_ += ' ' + ser_inl(c) + ' |' + '|' * k_
+                return out_
             rows = ['| ' + ' | '.join(ser_inl(c) for c in b[2]) + ' |', '| ' + ' | '.join(al[a] for a in b[1]) + ' |']
-            rows += ['| ' + ' | '.join(ser_inl(c) for c in r) + ' |' for r in b[3]]
+            rows += [row_(r) for r in b[3]]
         if b[4]:
             rows.append('[' + b[4] + ']')
         return '\n'.join(rows)
